@@ -150,10 +150,18 @@ def run(ctx, R, tier):
         for node in ctx.node_of(f, c):
             ok, why = from_gate(node, a0.id) if isinstance(a0, ast.Name) else (False, "method argument is not a local name")
             R.check(ok, "C02-R1", "handleRequest|oneway-handoff", "the method handed to the oneway thread comes from _get_attribute", f.loc(c), why)
-    for qn, nm in ((PGET, "getattr-request"), (PSET, "setattr-request")):
+    for qn, nm, nargs in ((PGET, "getattr-request", 2), (PSET, "setattr-request", 3)):
         calls = ctx.calls_to(f, qn)
         R.check(len(calls) >= 1, "C02-R1", "handleRequest|%s" % nm, "attribute access goes through the property gate %s" % qn.rsplit(".", 1)[1], f.loc(),
                 "the %s no longer goes through %s" % (nm, qn))
+        for c in calls:
+            plain = len(c.args) == nargs and not c.keywords and not any(isinstance(a, ast.Starred) for a in c.args)
+            R.check(plain, "C02-R1", "handleRequest|%s-gate-arguments" % nm, "the gate is called with exactly (object, name%s): the peer cannot reach the gate's other parameters" % (", value" if nargs == 3 else ""),
+                    f.loc(c), "`%s` lets the request's argument vector fill further parameters of the gate (e.g. only_exposed=False switches the exposure test off)" % unparse(c))
+    for c in ctx.calls_to(f, GATE):
+        plain = len(c.args) == 2 and not c.keywords and not any(isinstance(a, ast.Starred) for a in c.args)
+        R.check(plain, "C02-R1", "handleRequest|method-gate-arguments#%d" % ctx.calls_to(f, GATE).index(c), "the method gate is called with exactly (object, name)", f.loc(c),
+                "`%s` passes peer-controlled extra arguments to the gate" % unparse(c))
     bad = []
     for c, tgs in ctx.cg.calls_of(f):
         if any(t.kind == "ext" and t.name in ("builtins.getattr", "builtins.setattr", "builtins.delattr") for t in tgs):
@@ -233,6 +241,13 @@ def run(ctx, R, tier):
             "_get_exposed_members lists a name as method only if it is a function/method/method descriptor; _get_attribute serves any attribute "
             "whose value carries _pyroExposed (e.g. an attribute holding an instance or the class of an @expose'd class): served and called, "
             "never advertised")
+    # metadata cache: one entry per class OBJECT
+    ckeys = [n for n in walk_no_nested(m.node) if isinstance(n, ast.Assign) and isinstance(n.value, ast.Tuple) and
+             any(isinstance(x, ast.Subscript) and isinstance(x.slice, ast.Name) and x.slice.id == (n.targets[0].id if isinstance(n.targets[0], ast.Name) else None)
+                 for x in walk_no_nested(m.node))]
+    okc = bool(ckeys) and all(any(isinstance(e, ast.Name) and e.id == m.params[0] for e in n.value.elts) for n in ckeys)
+    R.check(okc, "C02-R3", "metadata-cache|keyed-by-class-object", "the per-class metadata cache is keyed by the class object itself", m.loc(ckeys[0]) if ckeys else m.loc(),
+            "the cache key `%s` does not contain the class object: two different classes that share a name get each other's advertised member list" % (unparse(ckeys[0].value) if ckeys else "?"))
     # carrier order
     orders = {}
     ex = ctx.fn("Pyro5.server.expose")
